@@ -122,8 +122,8 @@ def r2(ctx):
 
 def r3(ctx):
     ctx.rule('C19.R3', 'AttributedItem::dumpString writes a text unquoted only if it contains neither the field separator nor '
-             'a quote at its start/end nor two adjacent quotes, wraps it in quotes otherwise and doubles every embedded quote',
-             minimum=4)
+             'a quote at its start/end nor two adjacent quotes (searched from the start of the text or from its first quote), '
+             'wraps it in quotes otherwise and doubles every embedded quote', minimum=6)
     fb = ctx.fb
     fn = fb.fn('ebusd::AttributedItem::dumpString')
     ctx.touch(fn)
@@ -163,6 +163,19 @@ def r3(ctx):
                     return none in ks or any(pol and '.find(' in k and k.endswith('== #18446744073709551615)') and '#2,#34' in k for k, pol in ks)
                 nodbl = bool(dnf) and all(fine(c) for c in dnf)
         ctx.ob('C19.R3', fn, plain[0], nodbl, 'unquoted output and doubled quotes', 'written plain only without two adjacent quotes: %s' % nodbl)
+        # ... and the searches behind that decision look at the whole text: they start at 0 or at the first quote found
+        p_ = fn.parent(plain[0])
+        while p_ is not None and fn.nodes[p_]['k'] != 'IfStmt':
+            p_ = fn.parent(p_)
+        dec = set(fn.walk(fn.nodes[p_]['cond'])) if p_ is not None else set()
+        for c_ in fn.calls('find', 'find_first_of'):
+            if c_ not in dec:
+                continue
+            args = fn.nodes[c_].get('args', [])
+            st = fn.key(args[1]) if len(args) > 1 else '#0'
+            ok_s = st in ('#0', q)
+            ctx.ob('C19.R3', fn, c_, ok_s, 'search deciding the unquoted output: %s' % fn.key(c_)[:60],
+                   'scans from the start of the text or from the first quote: %s' % ok_s)
     else:
         raise AnalysisBroken('C19.R3: position of the first quote in dumpString not recognised')
     dbl = [nid for nid, v in fn.nodes.items() if v['k'] == 'CXXOperatorCallExpr' and v.get('op') == '<<' and v.get('args') and
